@@ -79,7 +79,8 @@ def client_cases(draw):
             'frag': draw(st.sampled_from([None, 64, 200])), 'msg': draw(st.booleans()),
             'req_after_reconnect': draw(st.booleans()),
             # the client may have a lease publisher of its own; the SETUP lease flag only says whether it HONOURS leases
-            'client_lease_publisher': draw(st.sampled_from([False, False, True]))}
+            # (... and that publisher may hand its first lease over from inside subscribe(), i.e. during connect())
+            'client_lease_publisher': draw(st.sampled_from([False, False, True, 'eager']))}
 
 
 def judge_client(case):
@@ -96,7 +97,7 @@ def judge_client(case):
     if case['lease']:
         cfg['lease'] = {'queue': 0}
     if case.get('client_lease_publisher'):
-        cfg['client_lease_publisher'] = True
+        cfg['client_lease_publisher'] = case['client_lease_publisher']
     if case['payload'] is not None:
         d, m = A.payload_bytes(77, 0, 0, case['payload'])
         cfg['setup_payload'] = [d, m]
